@@ -142,9 +142,10 @@ def report(ctx, res, path, model, extra=None):
             sk["samples"].append({"after": path, "why": res["skip"]})
         return
     for i in res.get("info", []):
-        lat = ctx.cov.setdefault("latent", {"count": 0, "samples": []})
+        kind = "on-disk bitmap never consulted" if "never consulted" in i else "git bitmap decoded in index order"
+        lat = ctx.cov.setdefault("latent", {}).setdefault(kind, {"count": 0, "samples": []})
         lat["count"] += 1
-        if len(lat["samples"]) < 3:
+        if len(lat["samples"]) < 2:
             lat["samples"].append({"after": path, "what": i})
     for (site, clause, q, cause, detail) in res["viol"]:
         sig = f"{site}|{clause}|{q}|{cause}"
@@ -412,8 +413,10 @@ def run(ctx):
         ctx.assumptions.append("C git not found: git-writer transitions were skipped")
     pool = cf.ThreadPoolExecutor(max_workers=4)
     mc_cfg = ctx.pick("Accel_mc.cfg", "Accel_mc6.cfg")
-    fut_mc = pool.submit(tlc.run, "Accel.tla", mc_cfg, workers=ctx.pick(4, 8), timeout=ctx.pick(300, 1500),
+    fut_mc = pool.submit(tlc.run, "Accel.tla", mc_cfg, workers=ctx.pick(4, 8), timeout=ctx.pick(300, 2400),
                          coverage=not ctx.quick)
+    # (depth 6 is checked without Exact, which only depends on primary data and is checked to depth 5 here)
+    fut_mc5 = None if ctx.quick else pool.submit(tlc.run, "Accel.tla", "Accel_mc5.cfg", workers=4, timeout=2400)
     futs = defect_runs(ctx, pool)
     t0 = os.times()
     budget = int(os.environ.get("C14_BUDGET", ctx.pick(3200, 36000)))       # (C14_BUDGET: debugging aid)
@@ -443,7 +446,9 @@ def run(ctx):
     asis += judge(ctx, wtraces, wmeta, "walks")
     ctx.cov["answers_matching_code_not_documentation"] = asis
     res = fut_mc.result()
-    ctx.add_tlc(f"{mc_cfg} (all guards on: Transparent, Exact, RefsTransparent, StaleRejected)", res)
+    ctx.add_tlc(f"{mc_cfg} (all guards on: Transparent, {'Exact, ' if ctx.quick else ''}RefsTransparent, StaleRejected)", res)
+    if fut_mc5 is not None:
+        ctx.add_tlc("Accel_mc5.cfg (all guards on: Transparent, Exact, RefsTransparent, StaleRejected)", fut_mc5.result())
     pool.shutdown()
     ctx.cov["rule"] = ("one evaluation = one model transition executed on a real repository and observed by three readers "
                        "(long-lived, fresh with accelerators, fresh without); distinct = distinct (state, action, successor) "
